@@ -124,4 +124,34 @@ def PStep.ofSer (s : SerStep) : PStep :=
 def toDict (cfg : Cfg) (st : State) : Payload :=
   .current (some 1) st.isRunning ((ser cfg st).workers.map (fun p => (p.1, PStep.ofSer p.2)))
 
+/-! ### the resumed runner in closed form (`C12_resumed_run_restarts_pending`, `C12_resumed_run_retry_records`) -/
+
+/-- what a step invocation is started with: the `InProgressState` row minus its worker slot and snapshots
+(= the `RetryAttempt` handed to `run_worker`: `ctx.retry_info()` and the recovery budget of the lineage) -/
+structure Started where
+  ev : Ev
+  attempts : Nat
+  firstAt : Int
+  lastExc : Option Nat
+  lastFailedAt : Option Int
+  rc : RC
+deriving DecidableEq, Repr
+
+def InProg.started (ip : InProg) : Started :=
+  { ev := ip.ev, attempts := ip.attempts, firstAt := ip.firstAt, lastExc := ip.lastExc,
+    lastFailedAt := ip.lastFailedAt, rc := ip.rc }
+
+/-- what `_add_or_enqueue_event` starts a queue entry with at clock `now` -/
+def Attempt.startedAt (now : Int) (a : Attempt) : Started :=
+  { ev := a.ev, attempts := orNat a.attempts 0, firstAt := orInt a.firstAt now, lastExc := a.lastExc,
+    lastFailedAt := a.lastFailedAt, rc := a.rc }
+
+/-- the entry `from_serialized` makes of an in-progress event -/
+def freshAttempt (e : Ev) : Attempt := { ev := e, attempts := some 0, firstAt := none }
+
+/-- the not-yet-completed invocations of a step as the resumed run meets them: queued ones (with their
+records) first, then the ones that were in progress (as fresh entries) -/
+def resumedPending (ss : StepState) : List Attempt :=
+  ss.queue.map serAttempt ++ ss.inProg.map (fun ip => freshAttempt ip.ev)
+
 end Engine
